@@ -58,6 +58,8 @@ def run(chk):
                               'obs': ob, 'exit': ob.get('exit'), 'stderr': ob.get('stderr')})
         # design conformance: the recorded operation traces must be behaviours of PutOps.tla (PutOpsTrace)
         kinds, kw = opdrivers.PUT_SCENARIOS[scen]
+        if kw.get('fallback'):
+            continue          # the trace vocabulary covers the rename path only; the copy path is judged by its states
         uniq = {}
         for o in out:
             uniq.setdefault(json.dumps(o['events']), o)
